@@ -132,9 +132,9 @@ def generate(targets, report):
         report.functions[t.fullname] = {'sha256': sha, 'tier': t.tier, 'obligations': 0, 'discharged': 0,
                                         'configs': len(t.configs), 'note': t.note}
         for c in t.configs:
-            ex = Exec(t.fullname, fn, globs, c.contract, prims=t.prims(globs) if callable(t.prims) else t.prims,
-                      kinds=t.kinds)
             try:
+                ex = Exec(t.fullname, fn, globs, c.contract, prims=t.prims(globs) if callable(t.prims) else t.prims,
+                          kinds=t.kinds)
                 st = c.setup(ex)
                 obls = ex.run(st)
             except NotInSubset as e:
